@@ -16,6 +16,16 @@ def gen_name(rng):
   }[shape], shape
 
 
+class _EmptyBatchError(Exception):
+  def __len__(self):
+    return 0
+
+
+class _QuietError(Exception):
+  def __bool__(self):
+    return False
+
+
 class StubDispatcher(object):
   def __init__(self):
     self.calls = []
@@ -48,7 +58,7 @@ class C20(BaseCheck):
   REQUIRED_ANCHORS = ANCHORS
   REQUIRED_CLASSES = ('name:plain', 'name:x_', 'name:x__', 'name:_x', 'name:__x__', 'name:x_async', 'uri:tcp', 'uri:zk',
                       'uri:bad', 'result:error', 'result:later', 'inherited', 'function-name-differs', 'alias',
-                      'uri:tcp-read-again', 'kwargs:loaded-names', 'ancestors-proxied-first', 'declared:classmethod', 'declared:staticmethod', 'declared:abstractmethod', 'uri:other-parser-extended', 'another-client-used-first')
+                      'uri:tcp-read-again', 'kwargs:loaded-names', 'ancestors-proxied-first', 'declared:classmethod', 'declared:staticmethod', 'declared:abstractmethod', 'uri:other-parser-extended', 'another-client-used-first', 'result:error-object-is-falsy')
   ASSUMPTIONS = ('public method = every user method that is not a dunder name (the property quantifies over names '
                  'with leading and trailing underscores, so _x and _x_ are judged like any other); names that collide with '
                  'another method\'s _async form or with the proxy base class are not generated',)
@@ -214,6 +224,11 @@ class C20(BaseCheck):
           classes.add('result:error')
         scripted = AsyncResult()
         value, error = ('val', name, rng.random()), KeyError('scripted-%s' % name)
+        if rng.random() < 0.25:
+          # an error object that is false in a boolean context (a batch error listing no failed items, an
+          # error type with a truth value of its own): an error like any other
+          error = rng.choice([_EmptyBatchError, _QuietError])('scripted-%s' % name)
+          classes.add('result:error-object-is-falsy')
 
         def complete():
           if 'error' in mode:
